@@ -437,6 +437,10 @@ def run(shard, rec, rng):
         c = chr(cp)
         for s in (c, "a" + c + "b", c + ".txt", "../" + c, c + c):
             sf(s)
+        if cp < 0x3000 or cp % 16 == 0:
+            # the character at the very end / very start of an otherwise clean name (where anchors of patterns sit)
+            for s in ("report.pdf" + c, c + "report.pdf", "a" + c, "report.pdf" + c + c):
+                sf(s)
     # dots separated by characters the sanitiser deletes (ASCII punctuation, controls): what is left must already be final
     for mid in ("$", "!", "$$", "\x00", "\x7f", "(", "'", "é", " ", "$.$"):
         for s_ in (f"report.{mid}.pdf", f"a.{mid}.", f".{mid}.b", f"x{mid}.{mid}.y", f"a.{mid}.{mid}.b"):
